@@ -25,18 +25,18 @@ type Violation struct {
 
 // File is what one process hands to the driver.
 type File struct {
-	Test        string            `json:"test"`
-	Property    string            `json:"property"`
-	Evaluations int64             `json:"evaluations"`
-	Steps       int64             `json:"steps"`
-	Nontrivial  []string          `json:"nontrivial_fps"`
-	Classes     map[string]int64  `json:"classes"`
-	Samples     []interface{}     `json:"samples"`
-	Violations  []*Violation      `json:"violations"`
+	Test        string                 `json:"test"`
+	Property    string                 `json:"property"`
+	Evaluations int64                  `json:"evaluations"`
+	Steps       int64                  `json:"steps"`
+	Nontrivial  []string               `json:"nontrivial_fps"`
+	Classes     map[string]int64       `json:"classes"`
+	Samples     []interface{}          `json:"samples"`
+	Violations  []*Violation           `json:"violations"`
 	Extra       map[string]interface{} `json:"extra,omitempty"`
-	Rule        string            `json:"rule"`
-	Exhaustive  bool              `json:"exhaustive,omitempty"`
-	Completed   bool              `json:"completed"`
+	Rule        string                 `json:"rule"`
+	Exhaustive  bool                   `json:"exhaustive,omitempty"`
+	Completed   bool                   `json:"completed"`
 }
 
 // Rec is a recorder for one test.
